@@ -208,9 +208,9 @@ class Path:
     def __repr__(s): return 'Path(ret=%r,end=%r)' % (s.ret, s.end)
 
 class Interp:
-    def __init__(s, mod, intercept=None, limits=None, merge_pure=True):
+    def __init__(s, mod, intercept=None, limits=None, merge_pure=True, resolve_selects=False):
         s.mod = mod; s.intercept = dict(DEFAULT_INTERCEPTS); s.intercept.update(intercept or {}); s.lim = limits or Limits(); s.steps = 0; s.ended = []; s.merge_pure = merge_pure
-        s.gaddr = {}; s.called = {}; s.npaths = 0
+        s.gaddr = {}; s.called = {}; s.npaths = 0; s.resolve_selects = resolve_selects
     # ------------------------------------------------------------ set-up
     def new_state(s):
         st = State()
@@ -402,6 +402,10 @@ class Interp:
             if not is_sym(c): regs[I.dest] = a if c else b
             else:
                 c = toB(c)
+                if s.resolve_selects:
+                    # a condition already decided by the path condition selects its operand directly (simpler, structurally comparable terms)
+                    if not s.feasible(st.pc, z3.Not(c)): regs[I.dest] = a; return None
+                    if not s.feasible(st.pc, c): regs[I.dest] = b; return None
                 if isinstance(t, FpT): regs[I.dest] = z3.If(c, toR(a), toR(b))
                 elif isinstance(t, IntT) and t.w == 1: regs[I.dest] = z3.If(c, toB(a), toB(b))
                 elif isinstance(t, IntT) and (is_sym(a) or is_sym(b) or t.w < 32):
